@@ -78,6 +78,10 @@ type pathCtx struct {
 	asserts int
 	permute bool // symbolic map iteration order
 	steps   int64
+	vars    []*Term           // variables created on this path
+	mdl     map[string]uint64 // a model of the current PC, when known
+	noModel bool              // uninterpreted functions in use: no model caching
+	memo    map[*Term]uint64
 }
 
 type Stats struct {
@@ -209,7 +213,7 @@ func (w *worker) begin(prefix []entry) *pathCtx {
 		w.s.Pop(w.synced - keep)
 		w.synced = keep
 	}
-	return &pathCtx{w: w, prefix: prefix}
+	return &pathCtx{w: w, prefix: prefix, noModel: noModelEnv}
 }
 
 func (p *pathCtx) sync() {
@@ -259,6 +263,80 @@ func (p *pathCtx) checkWith(t *Term, ms int) SatResult {
 	return r
 }
 
+// checkAdopt is checkWith that, on Sat, fetches the model so that it can be
+// adopted if the caller goes on under PC ∧ t.
+func (p *pathCtx) checkAdopt(t *Term, ms int) (SatResult, map[string]uint64) {
+	if p.noModel {
+		return p.checkWith(t, ms), nil
+	}
+	p.sync()
+	s := p.w.s
+	s.Push()
+	s.Assert(t)
+	r := s.Check(ms)
+	var m map[string]uint64
+	if r == Sat {
+		if vals, err := s.GetVarValues(p.vars); err == nil {
+			m = make(map[string]uint64, len(vals))
+			for k, v := range p.vars {
+				m[v.name] = vals[k]
+			}
+		}
+	}
+	s.Pop(1)
+	return r, m
+}
+
+// evalModel evaluates a condition under the cached model: 1 true, 0 false, -1 unknown.
+func (p *pathCtx) evalModel(c *Term) int {
+	if p.mdl == nil || p.noModel {
+		return -1
+	}
+	if p.memo == nil {
+		p.memo = map[*Term]uint64{}
+	}
+	return int(evalTerm(c, p.mdl, p.memo) & 1)
+}
+
+var debugModel = os.Getenv("GOSYM_CHECK_MODEL") != ""
+var noModelEnv = os.Getenv("GOSYM_NO_MODEL") != ""
+
+func (p *pathCtx) setModel(m map[string]uint64) {
+	p.mdl = m
+	p.memo = nil
+	if debugModel && m != nil {
+		memo := map[*Term]uint64{}
+		for k, t := range p.pc {
+			if evalTerm(t, m, memo)&1 != 1 {
+				fmt.Fprintf(os.Stderr, "MODEL MISMATCH: pc[%d] evaluates false: %s\n model=%v\n", k, termString(t, 6), m)
+				break
+			}
+		}
+	}
+}
+
+func termString(t *Term, depth int) string {
+	if t.op == OpConst {
+		return constString(t)
+	}
+	if t.op == OpVar {
+		return t.name
+	}
+	if depth == 0 {
+		return "..."
+	}
+	s := fmt.Sprintf("(op%d", t.op)
+	if t.op == OpExtract {
+		s += fmt.Sprintf("[%d:%d]", t.k>>8, t.k&0xff)
+	}
+	for _, x := range []*Term{t.a, t.b, t.c} {
+		if x != nil {
+			s += " " + termString(x, depth-1)
+		}
+	}
+	return s + ")"
+}
+
 // branch decides a symbolic condition, forking when both sides are feasible.
 func (p *pathCtx) branch(c *Term) bool {
 	if c.isConst() {
@@ -276,17 +354,36 @@ func (p *pathCtx) branch(c *Term) bool {
 	p.w.e.mu.Lock()
 	p.w.e.Stats.Branches++
 	p.w.e.mu.Unlock()
-	r1 := p.checkWith(c, p.w.e.QueryMs)
-	if r1 == Unsat {
-		p.record(entry{kind: eBranch, choice: 0})
-		p.addPC(mkNot(c))
-		return false
-	}
-	r2 := p.checkWith(mkNot(c), p.w.e.QueryMs)
-	if r2 == Unsat {
-		p.record(entry{kind: eBranch, choice: 1})
-		p.addPC(c)
-		return true
+	switch p.evalModel(c) {
+	case 1:
+		// the cached model satisfies PC ∧ c: only the other side needs a query
+		if p.checkWith(mkNot(c), p.w.e.QueryMs) == Unsat {
+			p.record(entry{kind: eBranch, choice: 1})
+			p.addPC(c)
+			return true
+		}
+	case 0:
+		r1, m1 := p.checkAdopt(c, p.w.e.QueryMs)
+		if r1 == Unsat {
+			p.record(entry{kind: eBranch, choice: 0})
+			p.addPC(mkNot(c))
+			return false
+		}
+		p.setModel(m1)
+	default:
+		r1, m1 := p.checkAdopt(c, p.w.e.QueryMs)
+		if r1 == Unsat {
+			p.record(entry{kind: eBranch, choice: 0})
+			p.addPC(mkNot(c))
+			return false
+		}
+		r2 := p.checkWith(mkNot(c), p.w.e.QueryMs)
+		p.setModel(m1)
+		if r2 == Unsat {
+			p.record(entry{kind: eBranch, choice: 1})
+			p.addPC(c)
+			return true
+		}
 	}
 	// both feasible (or unknown): take true, queue false
 	alt := make([]entry, len(p.trace)+1)
@@ -336,29 +433,48 @@ func (p *pathCtx) concretize(t *Term) uint64 {
 	if len(excl) >= maxConcretize {
 		panic(unsupported{"concretize: more than 40 feasible values for an index/length"})
 	}
-	c := tTrue
-	for _, v := range excl {
-		c = mkBin(OpAnd, c, mkNot(mkBin(OpEq, t, bvConst(t.w, v))))
-	}
-	p.sync()
-	s := p.w.s
-	s.Push()
-	s.Assert(c)
-	r := s.Check(p.w.e.QueryMs)
-	if r == Unsat {
+	var v uint64
+	if len(excl) == 0 && p.mdl != nil && !p.noModel {
+		// the cached model of the PC provides a feasible value without a query
+		if p.memo == nil {
+			p.memo = map[*Term]uint64{}
+		}
+		v = evalTerm(t, p.mdl, p.memo)
+	} else {
+		c := tTrue
+		for _, x := range excl {
+			c = mkBin(OpAnd, c, mkNot(mkBin(OpEq, t, bvConst(t.w, x))))
+		}
+		p.sync()
+		s := p.w.s
+		s.Push()
+		s.Assert(c)
+		r := s.Check(p.w.e.QueryMs)
+		if r == Unsat {
+			s.Pop(1)
+			panic(pathEnd{"concretize-exhausted"})
+		}
+		if r == Unknown {
+			s.Pop(1)
+			panic(unsupported{"concretize: solver unknown"})
+		}
+		vals, err := s.GetValues([]*Term{t})
+		var m map[string]uint64
+		if err == nil && !p.noModel {
+			if mv, err2 := s.GetVarValues(p.vars); err2 == nil {
+				m = make(map[string]uint64, len(mv))
+				for k, x := range p.vars {
+					m[x.name] = mv[k]
+				}
+			}
+		}
 		s.Pop(1)
-		panic(pathEnd{"concretize-exhausted"})
+		if err != nil {
+			panic(unsupported{"concretize: " + err.Error()})
+		}
+		v = vals[0]
+		p.setModel(m)
 	}
-	if r == Unknown {
-		s.Pop(1)
-		panic(unsupported{"concretize: solver unknown"})
-	}
-	vals, err := s.GetValues([]*Term{t})
-	s.Pop(1)
-	if err != nil {
-		panic(unsupported{"concretize: " + err.Error()})
-	}
-	v := vals[0]
 	alt := make([]entry, len(p.trace)+1)
 	copy(alt, p.trace)
 	nex := append(append([]uint64{}, excl...), v)
@@ -385,10 +501,13 @@ func (p *pathCtx) assume(c *Term) {
 		p.addPC(c)
 		return
 	}
-	r := p.checkWith(c, p.w.e.QueryMs)
-	if r == Unsat {
-		p.record(entry{kind: eCheck, choice: 0})
-		panic(pathEnd{"assume-infeasible"})
+	if p.evalModel(c) != 1 {
+		r, m := p.checkAdopt(c, p.w.e.QueryMs)
+		if r == Unsat {
+			p.record(entry{kind: eCheck, choice: 0})
+			panic(pathEnd{"assume-infeasible"})
+		}
+		p.setModel(m)
 	}
 	p.record(entry{kind: eCheck, choice: 1})
 	p.addPC(c)
@@ -464,6 +583,7 @@ func (p *pathCtx) assert(id string, c *Term) {
 	}
 	e.addViolation(Violation{Harness: e.Harness, Assert: id, Kind: "assert", Nondet: nd})
 	// continue under the assumption that the assertion holds, if possible
+	p.setModel(nil)
 	if c.isFalse() || p.checkWith(c, e.QueryMs) == Unsat {
 		p.record(entry{kind: eCheck, choice: 0})
 		panic(pathEnd{"assert-failed-always"})
